@@ -26,6 +26,7 @@ type FuncResult struct {
 	Axioms    []Term
 	Contract  *Contract
 	ParamSyms map[string]string
+	Fx        *FuncCtx
 }
 
 func (e *Engine) prepareContract(ct *Contract) (*ssa.Function, error) {
@@ -200,6 +201,7 @@ func (e *Engine) verify(ct *Contract) (res *FuncResult) {
 			}
 		}
 		res.Obls = fx.obls
+		res.Fx = fx
 		res.Paths = fx.npaths
 		res.Decls = fx.decls
 		res.DeclOrd = fx.declOrd
